@@ -1789,15 +1789,6 @@ size_t _GD_DoField(DIRFILE *restrict D, gd_entry_t *restrict E, int repr,
     return 0;
   }
 
-  if (first_samp == GD_HERE) {
-    first_samp = _GD_GetIOPos(D, E, -1);
-    if (D->error) {
-      D->recurse_level--;
-      dreturn("%i", 0);
-      return 0;
-    }
-  }
-
   /* avoid craziness */
   if (num_samp > GD_TRANSACTION_MAX(return_type))
     num_samp = GD_TRANSACTION_MAX(return_type);
@@ -2034,6 +2025,16 @@ size_t gd_getdata64(DIRFILE* D, const char *field_code, off64_t first_frame,
     _GD_SetError(D, GD_E_RANGE, GD_E_OUT_OF_RANGE, NULL, 0, NULL);
     dreturn("%i", 0);
     return 0;
+  }
+
+  /* resolve the current I/O position here: inside _GD_DoField a first sample
+   * of -1 is an ordinary (padding) sample number, e.g. PHASE with shift -1 */
+  if (first_samp == GD_HERE) {
+    first_samp = _GD_GetIOPos(D, entry, -1);
+    if (D->error) {
+      dreturn("%i", 0);
+      return 0;
+    }
   }
 
   if (entry->field_type == GD_SINDIR_ENTRY)
